@@ -18,13 +18,15 @@ The model mirrors what the code *does*, including:
     appended, and then — because the loop variable is not updated — every table that is free by
     then is appended a **second time** (the result may contain duplicates; consumers use `.index`);
   * `reference_fields[(table, field)] = target`: the last recorded dependency wins;
-  * the record-type column is listed under the key `RecordTypeId` (and, if it holds references, also
-    as a lookup);
+  * the record-type column is listed under the key `RecordTypeId` — unless it holds references, in
+    which case it is a lookup only (`record_type_col and (table_name, record_type_col) not in
+    reference_fields`, repaired by fix 8e9f95d; before, it was listed twice);
   * `mappings[step_name] = mapping` is a dict store: equal step names overwrite (keeping the position);
   * `indexed_by_sobject[target_table]` raises `KeyError` when a lookup targets a table that has no
     load step (hidden `__` tables: D14);
-  * `getattr(state, "intertable_dependencies", [])` on a dict: a continued run starts with an empty
-    dependency set (D05).
+  * how `Globals.__setstate__` reads the saved dependencies is a parameter (`Access`): the source
+    now reads them by key (`state.get`, fix d660dab); `Access.getattr` documents the old behaviour
+    (`getattr(state, …, [])` on a dict: a continued run started with an empty dependency set, D05).
 No Mathlib import (linked into the driver).
 -/
 
@@ -228,7 +230,7 @@ def plainFields (deps : List Dep) (table : String) (fields : List String) (rt : 
     List (String × String) :=
   let base := (fields.filter (fun f => !isRef deps table f && some f != rt)).map (fun f => (f, f))
   match rt with
-  | some c => dictInsert "RecordTypeId" c base
+  | some c => if isRef deps table c then base else dictInsert "RecordTypeId" c base
   | none => base
 
 /-- the `lookups` dict of one mapping (before `add_after_statements`) -/
